@@ -215,8 +215,11 @@ def monitor(spec, res, acc):
             D, taw = c["depletion"], c["taw"]
             dref, tawref, ncz = ref_depletion(c, prof)
             cov["depletion_checks"] += 1
+            # the model rounds every compartment's contribution to Wr, Wr(FC) and Wr(WP) to 0.01 mm:
+            # TAW carries up to 0.01 mm per rooted compartment, the depletion (a difference of two
+            # such sums, minus the equally rounded excess above field capacity) up to twice that
             tol = 0.01 * (ncz + 1) + 1e-9
-            if abs(D - dref) > tol or abs(taw - tawref) > tol:
+            if abs(D - dref) > 2 * tol or abs(taw - tawref) > tol:
                 acc.add("depletion-estimate", f"step {t}: model estimates depletion {D!r} / TAW {taw!r}, "
                         f"recomputation gives {dref!r} / {tawref!r}", dict(t=t, D=D, taw=taw, Dref=dref, tawref=tawref))
             thr = 1 - smt[stage - 1] / 100.0
